@@ -1,5 +1,6 @@
 import SpVerif.Model.GeomProto
 import SpVerif.Model.Frames
+import SpVerif.Model.Join
 namespace SpVerif.FramesProto
 open SpVerif.Proto SpVerif.Geom SpVerif.Frames SpVerif.GeomProto
 
@@ -40,3 +41,26 @@ def run : List V → Option String
   | _ => none
 
 end SpVerif.FramesProto
+
+namespace SpVerif.JoinProto
+open SpVerif.Proto SpVerif.Geom SpVerif.Frames SpVerif.GeomProto SpVerif.FramesProto SpVerif.Join
+
+def optPt? : V → Option (Option Pt)
+  | .none => some none
+  | v => (pt? v).map some
+
+def showOpt : Option Nat → V
+  | none => V.none
+  | some k => V.i k
+
+/-- `sjoin <how> <left points> <kind> <right shapes>` → `[ [ i j ] … ]` (`N` = unmatched side) -/
+def run : List V → Option String
+  | [.w "sjoin", .w how, .l lpts, .w kind, .l shapes] => do
+    let l ← lpts.mapM optPt?
+    let r ← shapes.mapM (elem? kind)
+    let h ← match how with
+      | "inner" => some How.inner | "left" => some How.left | "right" => some How.right | _ => none
+    pure (V.l ((join h l r).map (fun (a, b) => V.l [showOpt a, showOpt b]))).show
+  | _ => none
+
+end SpVerif.JoinProto
